@@ -32,7 +32,7 @@ func (c14) Required(tier string) []string {
 	return []string{"B-scribble", "B-resize", "H-reenter", "H-error", "H-nested", "reenter-with-enclosing-buffer", "scribble-inside-callback",
 		// ("reentrant-call-grew-shared-stack", "stack-grown-by-call" and "call-on-prewarmed-stack" look at the
 		// Buffer's own representation: reported, not required - a Buffer that keeps its memory differently must not break the check)
-		"call-after-failed-call", "call-after-depth-limit-exit", "call-after-handler-abort", "input-in-reused-arena", "same-address-same-length-different-bytes", "history-of-10000-calls", "retry-on-the-completed-message-after-a-partial-one", "G-gc"}
+		"call-after-failed-call", "call-after-depth-limit-exit", "call-after-handler-abort", "input-in-reused-arena", "same-address-same-length-different-bytes", "history-of-10000-calls", "retry-on-the-completed-message-after-a-partial-one", "G-gc", "H-panic"}
 }
 
 var bufOps = []string{"Valid", "SkipValue", "SkipValueFast", "HandleArrayValues", "HandleObjectValues"}
@@ -40,6 +40,10 @@ var bufOps = []string{"Valid", "SkipValue", "SkipValueFast", "HandleArrayValues"
 func genC14Tape(r *Rand, n int) []int {
 	t := make([]int, n)
 	for i := range t {
+		if r.Chance(1, 40) {
+			t[i] = dPanic
+			continue
+		}
 		switch r.Pick(5, 4, 1, 6, 3, 1) {
 		case 0:
 			t[i] = dDecline
@@ -75,7 +79,23 @@ func (c14) Gen(r *Rand, sc *Scenario, tier string) {
 		name := bufOps[r.Intn(len(bufOps))]
 		var d Doc
 		obj := name == "HandleObjectValues"
-		switch r.Pick(6, 3, 2, 2, 2, 2) {
+		switch r.Pick(6, 3, 2, 2, 2, 2, 1) {
+		case 6:
+			// hundreds of kilobytes with a wide root (only now and then: they are slow)
+			if r.Chance(1, 2) {
+				d = genDoc(r, "large")
+				if r.Chance(1, 2) {
+					// a wide root of a few hundred kilobytes: elements are small containers
+					n := r.Range(9000, 30000)
+					// neighbouring elements of different shape: arrays in objects, objects in arrays, different depths
+					d = docRep("large", "[", 1, `{"a":[1,2,{"b":null}]},[1,[2,[{"c":[3]}]],"x"],{"k":"v","l":[true,{"m":{}}]},[[[[4]]]],`, n/4, "0]", 1)
+				}
+				if name != "HandleArrayValues" && name != "HandleObjectValues" {
+					name = []string{"Valid", "SkipValue", "SkipValueFast"}[r.Intn(3)]
+				}
+			} else {
+				d = genDoc(r, "medium")
+			}
 		case 0:
 			if name == "HandleArrayValues" || obj {
 				d = genTraversalDoc(r, obj, true)
@@ -133,6 +153,8 @@ func (c14) Gen(r *Rand, sc *Scenario, tier string) {
 			op.Tape = genDecisionTape(r, r.Range(0, 12), false)
 			if r.Chance(1, 2) {
 				op.Tape = append(op.Tape, mkDec(dError, r.Intn(nErrKinds)))
+			} else if r.Chance(1, 2) {
+				op.Tape = append(op.Tape, dPanic) // thousands of calls that end in a recovered handler panic
 			}
 		}
 		if r.Chance(1, 12) && sc.Docs[op.Doc].Len() > 1 && sc.Docs[op.Doc].Len() < 5000 && op.Rep <= 1 {
